@@ -17,7 +17,7 @@ def run(chk):
         T = rng.choice([1, 2, 3, 4])
         lo = rng.randrange(1, 4)
         hi = lo + rng.randrange(1, 6 if T < 4 else 5)
-        a = [rng.randrange(1, 4) for _ in range(T)]
+        a = [rng.randrange(1, 4)] + [rng.randrange(0, 4) for _ in range(T - 1)]      # probabilities may be exactly 0
         f = [rng.randrange(0, 4) for _ in range(hi + 2)]
         if sum(f[k - 1] for k in range(lo, hi)) == 0:
             f[lo - 1] = 2
